@@ -126,6 +126,39 @@ theorem extractLines_lines_append {b r : Bytes} {ls : List Bytes} (x : Bytes) (h
             rw [← List.cons_append, List.drop_append_of_le_length hbd.2]
           simp only [ht, hd, h1, h2]
 
+/-! ### h11 `maybe_extract_next_line` decides on a prefix -/
+
+private theorem findCrlf_bounds : ∀ {b : Bytes} {i : Nat}, findCrlf b = some i → 2 ≤ i ∧ i ≤ b.length
+  | [], _, h => by simp [findCrlf] at h
+  | [_], _, h => by simp [findCrlf] at h
+  | a :: c :: rest, i, h => by
+    simp only [findCrlf] at h
+    split at h
+    · simp at h; subst h; simp
+    · cases hr : findCrlf (c :: rest) with
+      | none => simp [hr] at h
+      | some j =>
+        simp [hr] at h; subst h
+        have := findCrlf_bounds hr
+        simp at this ⊢; omega
+
+private theorem findCrlf_append : ∀ {b : Bytes} {i : Nat} (x : Bytes), findCrlf b = some i → findCrlf (b ++ x) = some i
+  | [], _, _, h => by simp [findCrlf] at h
+  | [_], _, _, h => by simp [findCrlf] at h
+  | a :: c :: rest, i, x, h => by
+    simp only [findCrlf] at h
+    simp only [List.cons_append, findCrlf]
+    split at h
+    · rename_i hc; simp [hc] at h ⊢; exact h
+    · rename_i hc
+      cases hr : findCrlf (c :: rest) with
+      | none => simp [hr] at h
+      | some j =>
+        simp [hr] at h; subst h
+        have := findCrlf_append x hr
+        simp only [List.cons_append] at this
+        simp [hc, this]
+
 /-! ### every step consumes input; the fuel of `drain` suffices -/
 
 variable (sizeOf : List Bytes → Option Size)
@@ -186,11 +219,53 @@ theorem step_len {p p' : Phase} {b r : Bytes} {o : List Out} (h : step sizeOf p 
     · rename_i hne
       simp at h; rw [h.2.2]
       cases b <;> simp at hne ⊢
+  | chunkSize acc hd =>
+    simp only [step] at h
+    cases hf : findCrlf b with
+    | none => simp [hf] at h
+    | some idx =>
+      have hb := findCrlf_bounds hf
+      simp only [hf] at h
+      split at h <;> simp at h <;> (obtain ⟨-, -, hr⟩ := h; subst hr; simp; omega)
+  | chunkData m acc hd =>
+    simp only [step] at h
+    split at h
+    · simp at h
+    · rename_i hne
+      have : 0 < b.length := by cases b <;> simp at hne ⊢
+      split at h
+      · simp at h; obtain ⟨-, -, hr⟩ := h; subst hr; simp; omega
+      · simp at h; obtain ⟨-, -, hr⟩ := h; subst hr; simpa using this
+  | chunkDiscard e es acc hd =>
+    simp only [step] at h
+    cases b with
+    | nil => simp at h
+    | cons c rest =>
+      simp only at h
+      split at h
+      · simp at h; obtain ⟨-, -, hr⟩ := h; subst hr; simp
+      · split at h <;> simp at h <;> (obtain ⟨-, -, hr⟩ := h; subst hr; simp)
+  | chunkTrailer acc hd =>
+    simp only [step] at h
+    cases he : extractLines b with
+    | more => simp [he] at h
+    | blank rest =>
+      simp [he] at h; obtain ⟨-, -, hr⟩ := h; subst hr; exact extract_len.1 he
+    | lines ls rest =>
+      simp [he] at h
+      have := (extract_len (b := b) (r := rest)).2 ls he
+      obtain ⟨-, -, hr⟩ := h; subst hr; simp; omega
   | wait => simp [step] at h
-  | closed => simp [step] at h
+  | closed =>
+    simp only [step] at h
+    split at h
+    · simp at h
+    · rename_i hne
+      simp at h; obtain ⟨-, -, hr⟩ := h; subst hr
+      cases b <;> simp at hne ⊢
 
 theorem step_nil (p : Phase) : step sizeOf p [] = none := by
-  cases p <;> simp [step, extractLines]
+  cases p <;> simp [step, extractLines, findCrlf]
 
 private theorem drainF_fuel : ∀ (f g : Nat) (p : Phase) (b : Bytes), b.length ≤ f → b.length ≤ g →
     drainF sizeOf f p b = drainF sizeOf g p b
@@ -234,6 +309,23 @@ theorem drain_unfold (p : Phase) (b : Bytes) :
       rw [drainF_fuel sizeOf rest.length r.length p' r (by simp at this; omega) (Nat.le_refl _)]
 
 /-! ### the extension property of a step, and `feed_append` -/
+
+/-- once the connection is closed whatever is (or arrives) in the buffer is dropped -/
+theorem drain_closed (x : Bytes) : drain sizeOf .closed x = ([], .closed, []) := by
+  rw [drain_unfold]
+  cases x with
+  | nil => simp [step]
+  | cons c cs =>
+    simp only [step, List.isEmpty_cons, Bool.false_eq_true, ↓reduceIte]
+    rw [drain_unfold]; simp [step]
+
+/-- a step that fails the message and closes: same outcome on the longer buffer -/
+private theorem error_extend {p : Phase} {b : Bytes} {o : List Out} (x : Bytes)
+    (h1 : step sizeOf p (b ++ x) = some (o, .closed, [])) :
+    drain sizeOf p (b ++ x) =
+      (o ++ (drain sizeOf .closed ([] ++ x)).1, (drain sizeOf .closed ([] ++ x)).2.1, (drain sizeOf .closed ([] ++ x)).2.2) := by
+  rw [drain_unfold, h1]
+  simp [drain_closed]
 
 /-- what a step did stays valid when more bytes follow: the loop on the longer buffer produces the step's outputs and then
     continues from the step's result with the new bytes appended -/
@@ -325,8 +417,112 @@ private theorem step_extend {p p' : Phase} {b r : Bytes} {o : List Out} (x : Byt
         have hne' : (b ++ y :: ys).isEmpty = false := by cases b <;> simp
         simp only [step, hne', Bool.false_eq_true, ↓reduceIte, List.isEmpty_cons]
         simp [drain_unfold (b := []), step_nil, List.append_assoc]
+  | chunkSize acc hd =>
+    simp only [step] at h
+    cases hf : findCrlf b with
+    | none => simp [hf] at h
+    | some idx =>
+      have hb := findCrlf_bounds hf
+      have hfa := findCrlf_append x hf
+      have ht : List.take (idx - 2) (b ++ x) = List.take (idx - 2) b := List.take_append_of_le_length (by omega)
+      have hd : List.drop idx (b ++ x) = List.drop idx b ++ x := List.drop_append_of_le_length hb.2
+      simp only [hf] at h
+      cases hc : chunkHeader (List.take (idx - 2) b) with
+      | none =>
+        simp [hc] at h
+        obtain ⟨rfl, rfl, rfl⟩ := h
+        exact error_extend sizeOf x (by simp [step, hfa, ht, hc])
+      | some n =>
+        cases n with
+        | zero =>
+          simp [hc] at h
+          obtain ⟨rfl, rfl, rfl⟩ := h
+          rw [drain_unfold]; simp [step, hfa, ht, hc, hd]
+        | succ n =>
+          simp [hc] at h
+          obtain ⟨rfl, rfl, rfl⟩ := h
+          rw [drain_unfold]; simp [step, hfa, ht, hc, hd]
+  | chunkData m acc hd =>
+    simp only [step] at h
+    split at h
+    · simp at h
+    · rename_i hne
+      have hbpos : 0 < b.length := by cases b <;> simp at hne ⊢
+      split at h
+      · rename_i hle
+        simp at h
+        obtain ⟨rfl, rfl, rfl⟩ := h
+        rw [drain_unfold]
+        have hne' : (b ++ x).isEmpty = false := by cases b <;> simp at hne ⊢
+        have hle' : m + 1 ≤ (b ++ x).length := by simp; omega
+        simp only [step, hne', Bool.false_eq_true, ↓reduceIte, hle']
+        rw [List.take_append_of_le_length hle, List.drop_append_of_le_length hle]
+      · rename_i hgt
+        simp at h
+        obtain ⟨rfl, rfl, rfl⟩ := h
+        simp only [List.nil_append]
+        cases x with
+        | nil =>
+          simp only [List.append_nil]
+          rw [drain_unfold (p := .chunkData m acc hd)]
+          simp only [step, hne, Bool.false_eq_true, ↓reduceIte, hgt]
+          simp [drain_unfold (b := []), step_nil]
+        | cons y ys =>
+          rw [drain_unfold (p := .chunkData m acc hd), drain_unfold (p := .chunkData (m - b.length) (acc ++ b) hd)]
+          have hne' : (b ++ y :: ys).isEmpty = false := by cases b <;> simp
+          simp only [step, hne', Bool.false_eq_true, ↓reduceIte, List.isEmpty_cons, List.length_append, List.length_cons]
+          have hbm : b.length ≤ m := by omega
+          by_cases hc : m + 1 ≤ b.length + (ys.length + 1)
+          · have hc' : m - b.length + 1 ≤ ys.length + 1 := by omega
+            simp only [hc, hc', ↓reduceIte]
+            have e1 : List.take (m + 1) (b ++ y :: ys) = b ++ List.take (m - b.length + 1) (y :: ys) := by
+              rw [List.take_append]
+              have : m + 1 - b.length = m - b.length + 1 := by omega
+              rw [List.take_of_length_le (by omega), this]
+            have e2 : List.drop (m + 1) (b ++ y :: ys) = List.drop (m - b.length + 1) (y :: ys) := by
+              rw [List.drop_append]
+              have : m + 1 - b.length = m - b.length + 1 := by omega
+              rw [List.drop_of_length_le (by omega), this]; simp
+            rw [e1, e2]; simp [List.append_assoc]
+          · have hc' : ¬ (m - b.length + 1 ≤ ys.length + 1) := by omega
+            simp only [hc, hc', ↓reduceIte]
+            have : m - (b.length + (ys.length + 1)) = m - b.length - (ys.length + 1) := by omega
+            simp [this, List.append_assoc]
+  | chunkDiscard e es acc hd =>
+    simp only [step] at h
+    cases b with
+    | nil => simp at h
+    | cons c rest =>
+      simp only at h
+      split at h
+      · rename_i hce
+        simp at h
+        obtain ⟨rfl, rfl, rfl⟩ := h
+        exact error_extend sizeOf x (by simp [step, hce])
+      · rename_i hce
+        split at h <;> simp at h <;> (obtain ⟨rfl, rfl, rfl⟩ := h; rw [drain_unfold]; simp [step, hce])
+  | chunkTrailer acc hd =>
+    simp only [step] at h
+    cases he : extractLines b with
+    | more => simp [he] at h
+    | blank rest =>
+      simp [he] at h
+      obtain ⟨rfl, rfl, rfl⟩ := h
+      rw [drain_unfold]; simp [step, extractLines_blank_append x he]
+    | lines ls rest =>
+      simp [he] at h
+      obtain ⟨rfl, rfl, rfl⟩ := h
+      exact error_extend sizeOf x (by simp [step, extractLines_lines_append x he])
   | wait => simp [step] at h
-  | closed => simp [step] at h
+  | closed =>
+    simp only [step] at h
+    split at h
+    · simp at h
+    · rename_i hne
+      simp at h
+      obtain ⟨rfl, rfl, rfl⟩ := h
+      have hne' : (b ++ x).isEmpty = false := by cases b <;> simp at hne ⊢
+      exact error_extend sizeOf x (by simp [step, hne'])
 
 /-- draining `b ++ x` = draining `b`, then draining what is left together with `x` -/
 theorem drain_append : ∀ (n : Nat) (p : Phase) (b x : Bytes), b.length ≤ n →
@@ -417,6 +613,27 @@ example : (feed requestSize ⟨.head, []⟩ witness).2 =
     [.msg [[71, 69, 84, 32, 47, 32, 72, 84, 84, 80, 47, 49, 46, 49]] []] := by decide
 example : ((machine requestSize).feedAll ⟨.head, []⟩ [witness.take 2, witness.drop 2]).2 =
     (feed requestSize ⟨.head, []⟩ witness).2 := by decide
+/-! chunked bodies: whole, byte by byte, and the protocol errors -/
+/-- "POST / HTTP/1.1\r\nTransfer-Encoding: chunked\r\n\r\n3;x\r\nabc\r\n0\r\n\r\n" -/
+def chunkedWitness : Bytes :=
+  [80,79,83,84,32,47,32,72,84,84,80,47,49,46,49,13,10] ++
+  [84,114,97,110,115,102,101,114,45,69,110,99,111,100,105,110,103,58,32,99,104,117,110,107,101,100,13,10,13,10] ++
+  [51,59,120,13,10,97,98,99,13,10,48,13,10,13,10]
+
+example : (feed requestSize ⟨.head, []⟩ chunkedWitness).2 =
+    [.msg [[80,79,83,84,32,47,32,72,84,84,80,47,49,46,49],
+           [84,114,97,110,115,102,101,114,45,69,110,99,111,100,105,110,103,58,32,99,104,117,110,107,101,100]] [97,98,99]] := by
+  decide +kernel
+example : ((machine requestSize).feedAll ⟨.head, []⟩ (chunkedWitness.map fun c => [c])).2 =
+    (feed requestSize ⟨.head, []⟩ chunkedWitness).2 := by decide +kernel
+/-- trailers are a protocol error (fix 4f0e88849), a bad chunk-size line too -/
+example : (feed requestSize ⟨.chunkTrailer [] [], []⟩ [88,58,49,13,10,13,10]).2 = [.protoError []] := by decide
+example : (feed requestSize ⟨.chunkSize [] [], []⟩ [90,13,10]).2 = [.protoError []] := by decide
+/-- client side: an interim 103 is swallowed, the final response is read -/
+example : (feed (responseSize [71,69,84]) ⟨.head, []⟩
+    ([72,84,84,80,47,49,46,49,32,49,48,51,32,69,13,10,13,10] ++ [72,84,84,80,47,49,46,49,32,50,48,52,32,78,13,10,13,10])).2 =
+    [.msg [[72,84,84,80,47,49,46,49,32,50,48,52,32,78]] []] := by decide +kernel
+
 /-- the machine is not constant: a bad request line is rejected -/
 example : (feed requestSize ⟨.head, []⟩ [71, 13, 10, 13, 10]).2 = [.reject [[71]]] := by decide
 
